@@ -69,6 +69,9 @@ type replayT struct {
 	// tamper
 	Offset int `json:"offset,omitempty"`
 	Mask   int `json:"mask,omitempty"`
+	// tamper-pair: a second byte (Offset2) is changed with the same mask
+	Pair    bool `json:"pair,omitempty"`
+	Offset2 int  `json:"offset2,omitempty"`
 	Size   int `json:"file_size,omitempty"`
 	// path
 	Target string   `json:"target,omitempty"`
@@ -723,6 +726,8 @@ func main() {
 			replayBind(c)
 		case "tamper":
 			replayTamper(c)
+		case "tamper-pair":
+			replayTamperPair(c)
 		case "path":
 			replayPath(c)
 		case "modes":
@@ -739,6 +744,14 @@ func main() {
 	}
 	if *depthFlag > 0 {
 		depth = *depthFlag
+	}
+	if wantPart("tamper") {
+		// first, on the real directory back end: a tree whose signature scheme is broken may not even get
+		// through the set-up of the in-memory parts below; what this part finds is reported at once
+		partTamperPairs()
+		if run.HasViolations() {
+			run.Finish()
+		}
 	}
 	if wantPart("clear") {
 		partClear(depth)
